@@ -42,6 +42,7 @@ type stuckSentinel struct{}
 type runtime struct {
 	sched       []uint64
 	all         int
+	promises    []*promise
 	outstanding []*promise
 	events      []Event
 	rounds      int
@@ -139,6 +140,7 @@ func resolver(idx int, f *FShape) func(graphql.FieldContext) (interface{}, error
 		ch := make(graphql.ResolvePromise, 1)
 		p := &promise{id: rt.all, ch: ch, res: graphql.ResolveResult{Value: val, Error: err}, path: path}
 		rt.all++
+		rt.promises = append(rt.promises, p)
 		if wf.Mode == "pre" {
 			rt.events = append(rt.events, Event{"fulfil", "[" + path + "]"})
 			ch <- p.res
@@ -344,6 +346,12 @@ func RunReal(c *Case) (obs *Observed, err error) {
 	obs.Promises = rt.all
 	obs.Events = rt.events
 	obs.Widths = rt.widths
+	for _, p := range rt.promises {
+		// delivered but never received, or never delivered: the executor gave up on this promise
+		if len(p.ch) > 0 {
+			obs.Abandoned = append(obs.Abandoned, "["+p.path+"]")
+		}
+	}
 	if resp == nil {
 		obs.Data = "<none>"
 		return obs, nil
